@@ -176,6 +176,110 @@ theorem tr_switchSF (e : Int64) (fb S : UInt64) (l r : Bool) (maxExp minExp : In
   simp only [Translated.ufloatSwitchSF, sfBounds, tr_bitmask64, hfb, i32_beq_iff, he, Bool.and_eq_true, decide_eq_true_eq,
     beq_iff_eq]
 
+/-! ### the float32 variants (computed in `uint32` in Go, in 64 bits with a final mask in the model) -/
+
+theorem go_shl32_lt (a : UInt32) (n : UInt64) (h : n.toNat < 32) : Go.shl32 a n = a <<< n.toUInt32 := by
+  have : ¬ n ≥ 32 := by rw [ge_iff_le, UInt64.le_iff_toNat_le]; simp; omega
+  simp [Go.shl32, this]
+
+theorem go_shr32_lt (a : UInt32) (n : UInt64) (h : n.toNat < 32) : Go.shr32 a n = a >>> n.toUInt32 := by
+  have : ¬ n ≥ 32 := by rw [ge_iff_le, UInt64.le_iff_toNat_le]; simp; omega
+  simp [Go.shr32, this]
+
+/-- sign extension to 64 bits followed by truncation to 32 bits is the identity -/
+theorem i32_ext_trunc (e : Int32) : e.toInt64.toUInt64.toUInt32 = e.toUInt32 := by
+  apply UInt32.toNat_inj.mp
+  have h1 : e.toInt64.toInt = e.toInt := Int32.toInt_toInt64 e
+  have hlt : e.toInt < 2 ^ 31 := Int32.toInt_lt e
+  have hge : -2 ^ 31 ≤ e.toInt := Int32.le_toInt e
+  have h64 : (e.toInt64.toUInt64).toNat = (e.toInt % 2 ^ 64).toNat := by
+    rw [← h1]
+    show e.toInt64.toBitVec.toNat = _
+    rw [show e.toInt64.toInt = e.toInt64.toBitVec.toInt from rfl, BitVec.toInt_eq_toNat_cond]
+    have := e.toInt64.toBitVec.isLt
+    split <;> omega
+  have h32 : e.toUInt32.toNat = (e.toInt % 2 ^ 32).toNat := by
+    show e.toBitVec.toNat = _
+    rw [show e.toInt = e.toBitVec.toInt from rfl, BitVec.toInt_eq_toNat_cond]
+    have := e.toBitVec.isLt
+    split <;> omega
+  rw [UInt64.toNat_toUInt32, h64, h32]
+  omega
+
+theorem u64_mod32_eq_mask (x : UInt64) : x % 4294967296 = x &&& bitmask64 32 := by
+  apply UInt64.toNat_inj.mp
+  rw [and_mask_toNat x (by decide), UInt64.toNat_mod]; rfl
+
+/-- **`ufloat32FromParts`**: the 32-bit pattern, zero-extended, is the model's -/
+theorem tr_fromParts32 (e : Int32) (si sf : UInt64) :
+    (Translated.ufloat32FromParts e si sf).toUInt64 = fmt32.ufromParts e.toInt si sf := by
+  have hfb := tr_fracBits e 23
+  have h23 : (23 : UInt64).toNat = 23 := rfl
+  rw [h23] at hfb
+  have hle : (Translated.ufloatFracBits e 23).toNat ≤ 23 := by rw [hfb]; exact fracBits_le _ _
+  have key : (fracBits e.toInt fmt32.S).toUInt64 = Translated.ufloatFracBits e 23 := by
+    rw [show fmt32.S = 23 from rfl, ← hfb, nat_toUInt64_of_toNat]
+  have hlt32 : Translated.ufloatFracBits e 23 < 32 := by rw [UInt64.lt_iff_toNat_lt]; simp; omega
+  simp only [FFmt.ufromParts]
+  rw [show bitmask64 (1 + fmt32.E + fmt32.S) = bitmask64 32 from rfl, ← u64_mod32_eq_mask, ← UInt64.toUInt64_toUInt32]
+  congr 1
+  rw [UInt64.toUInt32_or, UInt64.toUInt32_or, UInt64.toUInt32_shiftLeft _ _ (by decide), key,
+    UInt64.toUInt32_shiftLeft _ _ hlt32, UInt64.toUInt32_add, ofInt_toInt_i32, i32_ext_trunc]
+  simp only [Translated.ufloat32FromParts]
+  rw [go_shl32_lt _ 23 (by decide), go_shl32_lt _ _ (by omega), tr_bitmask64]
+  rfl
+
+/-- **`ufloat32Parts`** -/
+theorem tr_parts32 (f : UInt32) :
+    ((Translated.ufloat32Parts f).1.toInt, (Translated.ufloat32Parts f).2.1, (Translated.ufloat32Parts f).2.2) = fmt32.parts f.toUInt64 := by
+  have hm : ((2147483647 : UInt32).toUInt64) = bitmask64 (fmt32.S + fmt32.E) := by decide
+  have hu : (f &&& 2147483647).toUInt64 = fmt32.mag f.toUInt64 := by
+    rw [UInt32.toUInt64_and, hm]; rfl
+  have hulen : (f &&& 2147483647).toNat < 2 ^ 31 := by
+    have h1 := fmt32.mag_lt wf32 f.toUInt64
+    rw [← hu] at h1
+    have h2 : ((f &&& 2147483647).toUInt64).toNat = (f &&& 2147483647).toNat := UInt32.toNat_toUInt64 _
+    rw [h2] at h1
+    exact h1
+  -- the exponent
+  have hx : ((Go.shr32 (f &&& 2147483647) 23)).toNat = (fmt32.mag f.toUInt64 >>> (23 : Nat).toUInt64).toNat := by
+    rw [go_shr32_lt _ 23 (by decide), ← hu]
+    simp only [UInt32.toNat_shiftRight, UInt64.toNat_shiftRight, UInt32.toNat_toUInt64]
+    rfl
+  have hxlt : (Go.shr32 (f &&& 2147483647) 23).toNat < 2 ^ 8 := by
+    rw [go_shr32_lt _ 23 (by decide)]
+    simp only [UInt32.toNat_shiftRight]
+    show (f &&& 2147483647).toNat >>> (23 % 32) < _
+    rw [Nat.shiftRight_eq_div_pow]
+    apply Nat.div_lt_of_lt_mul
+    show (f &&& 2147483647).toNat < 2 ^ 23 * 2 ^ 8
+    rw [← Nat.pow_add]; exact hulen
+  have he : (((Go.shr32 (f &&& 2147483647) 23).toInt32) - ((Translated.bitmask64 7).toUInt32.toInt32)).toInt =
+      ((fmt32.mag f.toUInt64 >>> (23 : Nat).toUInt64).toNat : Int) - (fmt32.bias : Int) := by
+    have hb : (Translated.bitmask64 7).toUInt32.toInt32 = 127 := by rw [tr_bitmask64]; decide
+    have hbias : fmt32.bias = 127 := by decide
+    rw [hb, hbias, ← hx, Int32.toInt_sub]
+    have h1 : ((Go.shr32 (f &&& 2147483647) 23).toInt32).toInt = (Go.shr32 (f &&& 2147483647) 23).toNat := by
+      show (Go.shr32 (f &&& 2147483647) 23).toBitVec.toInt = _
+      rw [BitVec.toInt_eq_toNat_of_lt (by show 2 * (Go.shr32 (f &&& 2147483647) 23).toNat < 2 ^ 32; omega)]; rfl
+    have : (127 : Int32).toInt = 127 := by decide
+    rw [h1, this]
+    apply Int.bmod_eq_of_le <;> omega
+  have hfb := tr_fracBits (((Go.shr32 (f &&& 2147483647) 23).toInt32) - ((Translated.bitmask64 7).toUInt32.toInt32)) 23
+  have h23 : (23 : UInt64).toNat = 23 := rfl
+  rw [h23, he] at hfb
+  have hle : (Translated.ufloatFracBits (((Go.shr32 (f &&& 2147483647) 23).toInt32) - ((Translated.bitmask64 7).toUInt32.toInt32)) 23).toNat ≤ 23 := by
+    rw [hfb]; exact fracBits_le _ _
+  have hS : fmt32.S = 23 := rfl
+  have hS' : fmt32.S.toUInt64 = (23 : Nat).toUInt64 := rfl
+  have key : (fracBits ((fmt32.mag f.toUInt64 >>> (23 : Nat).toUInt64).toNat - (fmt32.bias : Int)) fmt32.S).toUInt64 =
+      Translated.ufloatFracBits (((Go.shr32 (f &&& 2147483647) 23).toInt32) - ((Translated.bitmask64 7).toUInt32.toInt32)) 23 := by
+    rw [hS, ← hfb, nat_toUInt64_of_toNat]
+  simp only [Translated.ufloat32Parts, FFmt.parts, hS']
+  generalize ((Go.shr32 (f &&& 2147483647) 23).toInt32 - (Translated.bitmask64 7).toUInt32.toInt32) = E32 at he hfb hle key ⊢
+  rw [he, go_shr64_lt _ _ (by omega), tr_bitmask64 23, tr_bitmask64 (Translated.ufloatFracBits E32 23), key, hfb, hS, hu]
+  rfl
+
 /-! ### the loop of `genUfloatRange` that clears low bits -/
 
 theorem tr_clearLoop (maxR : Int64) (r sfMin : UInt64) (hb : (maxR.toUInt64 - r).toNat ≤ 64) :
